@@ -55,6 +55,37 @@ def guarded_run(eng, prop, plan, keep_log=False, limit=None):
     return out
 
 
+def isolated_run(eng, prop, plan, keep_log=False, limit=None):
+    """Execute one plan in a forked child of the (pristine) controlling process, so that nothing an earlier
+    execution left behind in process-wide state (caches, leaked globals) can influence it - and nothing it
+    leaves behind can influence the next one. Used for witnesses, minimisation candidates and the run whose
+    event log goes into the replay file."""
+    import pickle
+    r, w = os.pipe()
+    pid = os.fork()
+    if pid == 0:
+        code = 0
+        try:
+            os.close(r)
+            out = guarded_run(eng, prop, plan, keep_log=keep_log, limit=limit)
+            out['cov'] = list(out.get('cov', ()))
+            out['stats'] = dict(out.get('stats', {}))
+            with os.fdopen(w, 'wb') as f:
+                f.write(pickle.dumps(out))
+        except BaseException:
+            code = 1
+        finally:
+            os._exit(code)
+    os.close(w)
+    with os.fdopen(r, 'rb') as f:
+        data = f.read()
+    os.waitpid(pid, 0)
+    if not data:
+        return {'viol': None, 'digest': 'error', 'nontrivial': False, 'stats': {}, 'cov': (),
+                'harness_error': 'isolated child produced no result'}
+    return pickle.loads(data)
+
+
 def plan_size(plan):
     return len(json.dumps(plan, sort_keys=True, default=str))
 
@@ -94,11 +125,18 @@ def _worker(args):
             sig = out['viol']['sig']
             final = out.get('final_plan', plan)
             size = plan_size(final)
-            cur = viols.get(sig)
-            if cur is None or size < cur[0]:
-                viols[sig] = (size, idx, final, out['viol'], (cur[4] + 1) if cur else 1)
-            else:
-                viols[sig] = cur[:4] + (cur[4] + 1,)
+            ent = viols.setdefault(sig, {'count': 0, 'cands': [], 'iso': 0})
+            ent['count'] += 1
+            # does the plan fail on its own, in a clean process? (a worker has executed other runs before)
+            alone = 1
+            if ent['iso'] < 25 and not any(c[0] == 0 for c in ent['cands'][:2]):
+                ent['iso'] += 1
+                o2 = isolated_run(eng, prop, final)
+                if 'harness_error' not in o2 and o2['viol'] is not None and eng.same_signature(o2['viol']['sig'], sig):
+                    alone = 0
+            ent['cands'].append((alone, size, idx, final, out['viol']))
+            ent['cands'].sort(key=lambda c: (c[0], c[1], c[2]))
+            del ent['cands'][4:]
         if len(samples) < want_samples:
             samples.append({'run_index': idx, 'plan': eng.sample_view(plan),
                             'outcome': 'violation ' + out['viol']['sig'] if out['viol'] else 'held',
@@ -241,12 +279,11 @@ def run_check(eng, prop, tier, seed, runs=None, jobs=None, out_dir=None):
                 sampled.update(r['sampled'])
                 samples.extend(r['samples'])
                 for sig, v in r['viols'].items():
-                    cur = viols.get(sig)
-                    if cur is None:
-                        viols[sig] = v
-                    else:
-                        best = v if v[0] < cur[0] else cur
-                        viols[sig] = best[:4] + (cur[4] + v[4],)
+                    ent = viols.setdefault(sig, {'count': 0, 'cands': []})
+                    ent['count'] += v['count']
+                    ent['cands'].extend(v['cands'])
+                    ent['cands'].sort(key=lambda c: (c[0], c[1], c[2]))
+                    del ent['cands'][6:]
         except cf.TimeoutError:
             for p in list(pool._processes.values()):
                 p.kill()
@@ -298,15 +335,16 @@ def run_check(eng, prop, tier, seed, runs=None, jobs=None, out_dir=None):
                     wplan = json.load(f)['plan']
             except (OSError, ValueError, KeyError):
                 continue
-            o = guarded_run(eng, prop, wplan)
+            o = isolated_run(eng, prop, wplan)
             if 'harness_error' not in o and o['viol'] is not None and o['viol']['sig'] not in viols:
                 fp = o.get('final_plan', wplan)
-                viols[o['viol']['sig']] = (plan_size(fp), -1, fp, o['viol'], 1)
+                viols[o['viol']['sig']] = {'count': 1, 'cands': [(0, plan_size(fp), -1, fp, o['viol'])]}
     rep_dir = out_dir or os.path.join(VERIF_ROOT, 'replays')
     os.makedirs(rep_dir, exist_ok=True)
     budget = 2000 if tier == 'quick' else 20000
-    for sig in sorted(viols, key=lambda s: viols[s][0])[:8]:
-        size, idx, plan, viol, count = viols[sig]
+    for sig in sorted(viols, key=lambda s: viols[s]['cands'][0][:2])[:8]:
+        count = viols[sig]['count']
+        _, size, idx, plan, viol = viols[sig]['cands'][0]
         if sig in known_open:
             if sig not in known_seen:
                 print(f'KNOWN-FINDING: property={prop} {known_open[sig]["what"]} [signature {sig}; seen in batch]')
@@ -315,11 +353,24 @@ def run_check(eng, prop, tier, seed, runs=None, jobs=None, out_dir=None):
         tmin = time.time()
 
         def run_fn(cand):
-            o = guarded_run(eng, prop, cand)
+            o = isolated_run(eng, prop, cand)
             if 'harness_error' in o or o['viol'] is None:
                 return None, None
             return o['viol']['sig'], o.get('final_plan', cand)
 
+        first = (None, None)
+        for _, size, idx, plan, viol in viols[sig]['cands']:
+            first = run_fn(plan)
+            if first[0] is not None and eng.same_signature(first[0], sig):
+                break
+        if first[0] is None or not eng.same_signature(first[0], sig):
+            # found in a worker that had executed other runs before, but not reproducible on its own: the
+            # outcome depended on what earlier runs left behind in the process
+            print(f'HARNESS-ERROR violation {sig} (seen in {count} run(s), e.g. run {idx}) does not reproduce when its '
+                  f'plan is executed alone in a clean process: it depended on state left behind by earlier runs in '
+                  f'the same worker')
+            harness_problem = True
+            continue
         is_hang = sig.startswith('hang:')
         if is_hang:
             mplan, used = plan, 0
@@ -331,7 +382,7 @@ def run_check(eng, prop, tier, seed, runs=None, jobs=None, out_dir=None):
                 # a fault in the shrinker must never lose the violation: report it unminimised
                 print('  (minimiser failed, reporting the unminimised plan)\n' + traceback.format_exc())
                 mplan, used = plan, 0
-        out = guarded_run(eng, prop, mplan, keep_log=True)
+        out = isolated_run(eng, prop, mplan, keep_log=True)
         mviol = out['viol'] or viol
         path = os.path.join(rep_dir, f'{prop}-s{seed}-r{idx if idx >= 0 else "witness"}.json')
         rep = {'property': prop, 'engine': eng.name, 'seed': seed, 'run_index': idx, 'tier': tier,
